@@ -93,7 +93,10 @@ func MatchServeMuxPattern(mux *http.ServeMux, dir LookupHTTPHandler) (handler ht
 	if method == "" {
 		method = "OPTIONS"
 	}
-	return mux.Handler(&http.Request{Method: method, URL: dir.LookupHTTPHandlerURL()})
+	// ServeMux matches host-qualified patterns ("GET example.com/path") against
+	// Request.Host, not against URL.Host: carry the host of the lookup URL over.
+	handlerURL := dir.LookupHTTPHandlerURL()
+	return mux.Handler(&http.Request{Method: method, URL: handlerURL, Host: handlerURL.Host})
 }
 
 // Validate validates the directive.
